@@ -111,22 +111,22 @@ def source_block(name, lines, doc=False, nested=False):
     return blk, name
 
 
-def split_with_includes(rng, jid, lines, mode):
+def split_with_includes(rng, jid, lines, mode, hoist=None):
     """replace segments of the item list by include_source! of source blocks.
+    hoist(line) -> True: the line stays in the program text (just after the include) instead of moving into the source
     returns (module items defining the sources, new item lines, description)"""
     n = len(lines)
     srcs, desc = [], mode
     if mode == "start":
-        k = rng.randint(1, max(1, n - 1)) if n > 1 else n
-        cuts = [(0, k)]
+        cuts = [(0, rng.randint(1, n - 1) if n > 1 else n)]
     elif mode == "end":
-        k = rng.randint(1, max(1, n - 1)) if n > 1 else 0
-        cuts = [(k, n)]
+        cuts = [(rng.randint(1, n - 1) if n > 1 else 0, n)]
     elif mode == "middle":
-        a = rng.randint(1, max(1, n - 1)) if n > 1 else 0
-        b = rng.randint(a, n - 1) if a < n - 1 else min(n, a + 1) - (1 if n > 1 and a == n - 1 else 0)
-        b = max(a, min(b, n))
-        cuts = [(a, b)]
+        if n >= 3:
+            a = rng.randint(1, n - 2)
+            cuts = [(a, rng.randint(a + 1, n - 1))]
+        else:
+            cuts = [(n // 2, n // 2)]          # an empty source block between the items
     elif mode == "all":
         cuts = [(0, n)]
     elif mode == "two":
@@ -141,9 +141,13 @@ def split_with_includes(rng, jid, lines, mode):
     for ci, (a, b) in enumerate(cuts):
         out += lines[pos:a]
         sname = "src_%s_%s" % (jid, "ab"[ci])
-        blk, path = source_block(sname, lines[a:b], doc=(rng.random() < 0.3), nested=(rng.random() < 0.4))
+        seg = lines[a:b]
+        kept = [l for l in seg if hoist and hoist(l)]
+        seg = [l for l in seg if not (hoist and hoist(l))]
+        blk, path = source_block(sname, seg, doc=(rng.random() < 0.3), nested=(rng.random() < 0.4))
         srcs.append(blk)
         out.append("include_source!(%s);" % path)
+        out += kept          # after the include: a hoisted initialiser stays the LAST declaration of its relation
         pos = b
     out += lines[pos:]
     return srcs, out, "%s%s" % (mode, cuts)
@@ -199,22 +203,31 @@ def is_pure(p):
     return True
 
 
-def packagings(rng, cid, p, inputs, tier):
+def packagings(rng, cid, p, inputs, tier, witness=False):
     """all packaging jobs of one logical program"""
     rels = p["rels"]
     decls, rules = program_items(p)
     plain = decls + rules
     jobs = []
 
-    def add(kind, macro, items, scripts, desc=""):
+    def add(kind, macro, items, scripts, desc="", smap=None, flags=None):
         jid = "%s_%s" % (cid, kind)
-        jobs.append(dict(id=jid, kind=kind, macro=macro, items=items, scripts=scripts, desc=desc, rels=rels))
+        jobs.append(dict(id=jid, kind=kind, macro=macro, items=items, scripts=scripts, desc=desc, rels=rels,
+                         script_input=smap or list(range(len(scripts))), expect_flags=flags or [[] for _ in scripts]))
 
     def jid_of(kind):
         return "%s_%s" % (cid, kind)
 
     thorough = tier != "quick"
     run_macros = ["ascent_run", "ascent_run_par"]
+
+    def captures(line):
+        # an item that mentions a captured local: macro_rules hygiene makes locals invisible to the tokens of an
+        # ascent_source! block (finding include_source_hides_captured_locals), so these stay in the program text
+        return re.search(r"\bin_\w+\b", line) is not None
+
+    # 0. the reference packaging: ascent! + run()
+    add("base", "ascent", [macro_call("ascent", ["pub struct Prog;"], plain)], [struct_script(rels, inp) for inp in inputs])
 
     # 1. ascent_run!: inputs are captured locals used as initialisers (README form `relation r(..) = r;`)
     lines = [init_decl(d, "in_%s" % n) for d, (n, _, _) in zip(decls, rels)] + rules
@@ -239,11 +252,17 @@ def packagings(rng, cid, p, inputs, tier):
         kind = "inc_%s" % mode
         if macro.startswith("ascent_run"):
             base = [init_decl(d, "in_%s.iter().cloned().collect()" % n) for d, (n, _, _) in zip(decls, rels)] + rules
-            srcs, lines, desc = split_with_includes(rng, jid_of(kind), base, mode)
+            srcs, lines, desc = split_with_includes(rng, jid_of(kind), base, mode, hoist=captures)
             add(kind, macro, srcs + [go_fn(macro, rels, rng.choice([[], ["pub struct Prog;"]]), lines)], [go_script(rels, inp) for inp in inputs], desc)
         else:
             srcs, lines, desc = split_with_includes(rng, jid_of(kind), plain, mode)
             add(kind, macro, srcs + [macro_call(macro, ["pub struct Prog;"], lines)], [struct_script(rels, inp) for inp in inputs], desc)
+    # 5b. the same with the captured locals mentioned INSIDE the source block (as if pasted: must work too)
+    if witness:
+        mw = rng.choice(run_macros)
+        base = [init_decl(d, "in_%s.iter().cloned().collect()" % n) for d, (n, _, _) in zip(decls, rels)] + rules
+        srcs, lines, desc = split_with_includes(rng, jid_of("inc_captured"), base, "all")
+        add("inc_captured", mw, srcs + [go_fn(mw, rels, [], lines)], [go_script(rels, inp) for inp in inputs], desc)
     # 6. relation r(..) = e in ascent!: Default::default() evaluates e (here: a function returning the current input)
     m6 = rng.choice(["ascent", "ascent_par"])
     lines = [init_decl(d, "in_%s().into_iter().collect()" % n) for d, (n, _, _) in zip(decls, rels)] + rules
@@ -304,7 +323,8 @@ def packagings(rng, cid, p, inputs, tier):
     for inp in inputs:
         scripts.append(struct_script(rels, inp))
         scripts.append(struct_script(rels, inp, run="flags.push(p.run_timeout(std::time::Duration::MAX));"))
-    add("timeout", m10, [macro_call(m10, ["#![generate_run_timeout]", "pub struct Prog;"], plain)], scripts)
+    add("timeout", m10, [macro_call(m10, ["#![generate_run_timeout]", "pub struct Prog;"], plain)], scripts,
+        smap=[k for k in range(len(inputs)) for _ in (0, 1)], flags=[f for _ in inputs for f in ([], [True])])
     # 11. everything at once
     m11 = rng.choice(["ascent", "ascent_par", "ascent_run", "ascent_run_par"])
     attrs = ["#![measure_rule_times]", "#![generate_run_timeout]"]
@@ -327,7 +347,7 @@ def packagings(rng, cid, p, inputs, tier):
             idecls.append(init_decl(d, "Default::default()"))
             idecls.append(init_decl(d, "in_%s.iter().cloned().collect()" % n))
         base = ([] if pure else [gd[0]]) + idecls + gr
-        srcs, lines, desc = split_with_includes(rng, jid_of("combo"), base, "two")
+        srcs, lines, desc = split_with_includes(rng, jid_of("combo"), base, "two", hoist=captures)
         params = ", ".join("in_%s: Vec<%s>" % (n, tuple_ty(a, ty)) for n, a, _ in rels)
         fn = "fn go<T: %s>(%s) -> String where T: std::fmt::Debug {\n   let p = %s;\n   snap!(p)\n}" % (
             bounds, params, macro_call(m11, header, lines).replace("\n", "\n   "))
@@ -337,7 +357,7 @@ def packagings(rng, cid, p, inputs, tier):
         srcs, lines, desc = split_with_includes(rng, jid_of("combo"), gd + gr, "two")
         add("combo", m11, srcs + [macro_call(m11, header, lines)],
             [struct_script(rels, inp, ctor="Prog::<i64>::default()", run="flags.push(p.run_timeout(std::time::Duration::MAX));") for inp in inputs],
-            "%s generic columns=%s" % (desc, pure))
+            "%s generic columns=%s" % (desc, pure), flags=[[True] for _ in inputs])
     for j in jobs:
         j["src"] = module_text(j["id"], rels, j.pop("items"), j["scripts"])
         j["nscripts"] = len(j.pop("scripts"))
